@@ -563,4 +563,44 @@ theorem inv_step (nw : Nat) (s : State) (e : Event) (s' : State) (h : Inv nw s)
   | wReturn c => exact inv_wReturn nw s s' c h hs
   | get t r => exact inv_get nw s s' t r h hs
 
+
+/-- the only step that writes a future is `exec`, and a task whose future is set cannot run again -/
+theorem fut_step (nw : Nat) (s s' : State) (e : Event) (t : Nat) (r : Int) (hinv : Inv nw s)
+    (hf : s.fut t = some r) (hst : step nw s e = some s') : s'.fut t = some r := by
+  cases e with
+  | exec i t' r' =>
+    simp only [step] at hst
+    split at hst <;> try simp at hst
+    rename_i t'' hwi
+    obtain ⟨heq, hst⟩ := hst
+    subst heq; subst hst
+    have hne : t ≠ t'' := by
+      intro e; subst e
+      have := (hinv.running i t hwi).2.1
+      rw [hinv.fut t r hf] at this; cases this
+    show upd s.fut t'' (some r') t = some r
+    rw [upd_other _ _ _ _ hne]; exact hf
+  | submit _ => simp only [step] at hst; split at hst <;> simp at hst; subst hst; exact hf
+  | submitRejected => simp only [step] at hst; split at hst <;> simp at hst; subst hst; exact hf
+  | pop _ =>
+    simp only [step] at hst; split at hst <;> try simp at hst
+    split at hst <;> simp at hst; subst hst; exact hf
+  | finish _ => simp only [step] at hst; split at hst <;> simp at hst; subst hst; exact hf
+  | exitW _ =>
+    simp only [step] at hst; split at hst <;> try simp at hst
+    obtain ⟨_, hst⟩ := hst; subst hst; exact hf
+  | setStop => simp only [step] at hst; split at hst <;> simp at hst; subst hst; exact hf
+  | join => simp only [step] at hst; split at hst <;> simp at hst; subst hst; exact hf
+  | wBegin _ => simp only [step] at hst; split at hst <;> simp at hst; subst hst; exact hf
+  | wEmpty _ =>
+    simp only [step] at hst; split at hst <;> try simp at hst
+    obtain ⟨_, hst⟩ := hst; subst hst; exact hf
+  | wIdle _ _ =>
+    simp only [step] at hst; split at hst <;> try simp at hst
+    obtain ⟨_, hst⟩ := hst; subst hst; exact hf
+  | wReturn _ =>
+    simp only [step] at hst; split at hst <;> try simp at hst
+    obtain ⟨_, hst⟩ := hst; subst hst; exact hf
+  | get _ _ => simp only [step] at hst; split at hst <;> simp at hst; subst hst; exact hf
+
 end TfelVerif.C29
